@@ -2,6 +2,7 @@ package main
 
 import (
 	"bytes"
+	"encoding/base64"
 	"encoding/json"
 	"fmt"
 	"sort"
@@ -89,6 +90,20 @@ func jsonLeafMutations(doc []byte) (names []string, docs [][]byte) {
 			// addresses / hex / base64 / decimal strings: change the last character within its class
 			if len(t) == 0 {
 				return "x"
+			}
+			// a base64 blob (embedded Ethereum transaction, byte field): one bit of its CONTENT flipped, so that the
+			// mutant still decodes and reaches the check the operator is aimed at (changing the last character of
+			// the text gave illegal base64: refused by the decoder, never by the signature check)
+			allHex := true
+			for _, ch := range t {
+				if !strings.ContainsRune("0123456789abcdefABCDEF", ch) {
+					allHex = false
+					break
+				}
+			}
+			if raw, err := base64.StdEncoding.DecodeString(t); err == nil && len(raw) >= 4 && !allHex {
+				raw[len(raw)/2] ^= 0x01
+				return base64.StdEncoding.EncodeToString(raw)
 			}
 			b := []byte(t)
 			c := b[len(b)-1]
